@@ -103,6 +103,11 @@ class HComm(kiwipy.LocalCommunicator):
         return ident
 
     def remove_rpc_subscriber(self, identifier):
+        if self.fail is not None and self.fail[0] == 'unsub' and identifier == PID and not getattr(self, 'unsub_failed', False):
+            # the communicator fails while the terminating process unsubscribes (a timeout on a broken connection): what comes
+            # after in the process's clean-up - removing the broadcast subscriber - must still happen
+            self.unsub_failed = True
+            raise make_exc(self.fail[1])
         super().remove_rpc_subscriber(identifier)
         self.rpc_ids.discard(identifier)
 
@@ -121,7 +126,7 @@ class HComm(kiwipy.LocalCommunicator):
         if isinstance(subject, str) and subject.startswith('state_changed') and sender is not None:
             idx = self.n_state
             self.n_state += 1
-            if self.fail is not None and self.fail[0] == idx:
+            if self.fail is not None and self.fail[0] == idx and not isinstance(self.fail[0], str):
                 self.injected = idx
                 raise make_exc(self.fail[1])
         self._ensure_open()
@@ -584,7 +589,7 @@ def run_remote(prog, sched, fail=None, max_cb=400, after_checks=True):
     """returns dict(ops, lines, events, replies, run-level facts); `events` drives the twin"""
     late = any(op == 'env start' for ops in sched.values() for op in ops)
     R = Run(prog, fail, start=not late)
-    res = dict(prog=prog, ops=[f"case {prog} {'-' if fail is None else '%d:%s' % fail}"], lines=[], events=[], replies={},
+    res = dict(prog=prog, ops=[f"case {prog} {'-' if fail is None else '%s:%s' % tuple(fail)}"], lines=[], events=[], replies={},
                msgs={}, ctor_error=R.ctor_error, hookfail_at=None, hist={}, status_checks=[], after=[], after_ids=[],
                escaped=[])
     if R.proc is None:
